@@ -1427,6 +1427,11 @@ pub fn c02(rec: &RunRecord) -> Vec<Violation> {
 }
 
 fn c02_inner(rec: &RunRecord) -> Vec<Violation> {
+    // a response at least two rounds old whose 16-bit sequence the current round has issued
+    // again is byte for byte a response to the current probe (see `ambiguous_rounds`)
+    if !ambiguous_rounds(rec).is_empty() {
+        return Vec::new();
+    }
     let attributed = attribute_acceptances(rec, "C02", "c02");
     if !attributed.is_empty() {
         return attributed;
